@@ -70,7 +70,7 @@ mod verif_cmap_reader {
         let _ = t.map_codepoint(cp);
         kani::cover!(t.seg_count_x2() == 6);
     }
-    //@harness fns=Cmap4Iter::next,Cmap4Iter::new,Cmap4::code_range,Cmap4::iter timeout=1200 note="inductive step of: iteration over ANY segment list (unsorted / overlapping / backwards) is strictly ascending in code point, below 0x10000 and agrees with the owning segment's lookup. State invariant P(m): every pair yielded so far is < m, m <= cur_range.start and m <= cur_range.end; one next() from ANY state satisfying P(m) yields c >= m and re-establishes P(c+1). The initial state satisfies P(0)." bound="any bytes <=40 B, <=3 segments each spanning <=3 code points; iterator state symbolic"
+    //@harness fns=Cmap4Iter::next,Cmap4Iter::new,Cmap4::code_range,Cmap4::iter tier=thorough timeout=2400 note="inductive step of: iteration over ANY segment list (unsorted / overlapping / backwards) is strictly ascending in code point, below 0x10000 and agrees with the owning segment's lookup. State invariant P(m): every pair yielded so far is < m, m <= cur_range.start and m <= cur_range.end; one next() from ANY state satisfying P(m) yields c >= m and re-establishes P(c+1). The initial state satisfies P(0)." bound="any bytes <=40 B, <=3 segments each spanning <=3 code points; iterator state symbolic"
     #[kani::proof]
     #[kani::unwind(16)]
     fn cmap4_iter_step_invariant() {
@@ -223,7 +223,7 @@ mod verif_cmap_reader {
         }
         None
     }
-    //@harness unit=U08.5 props=C08,C01 tier=quick level=bounded bound="any bytes <=56 B forming <=2 selector records (sorted), <=2 default ranges and <=2 non-default mappings per record (sorted); every code point and selector" timeout=1200 fns=Cmap14::map_variant
+    //@harness unit=U08.5 props=C08,C01 tier=thorough level=bounded bound="any bytes <=56 B forming <=2 selector records (sorted), <=2 default ranges and <=2 non-default mappings per record (sorted); every code point and selector" timeout=2400 fns=Cmap14::map_variant
     #[kani::proof]
     #[kani::unwind(5)]
     fn cmap14_reader_matches_spec() {
